@@ -21,7 +21,7 @@
 // parked), subscriptions created by the step must have started their ticker
 // and, if they were created with a 1 ms interval and zero lifetime, must have
 // expired; (3) a canary client on its own connection must get a Read
-// answered within the watchdog (60 s in this check).
+// answered within the watchdog (40 s quick / 60 s thorough in this check).
 //
 // Violations: the worker process dies (signature: step's service and variant,
 // token mode, top in-repo function of the panic); the canary is not answered
@@ -74,9 +74,14 @@ func (v c29Variant) String() string { return v.Svc + ":" + v.Name }
 const c29Big = 10000
 
 // c29Watch bounds every wait of this check. Under heavy machine load a single
-// 10^4-element request can take tens of seconds, so it is three times the
-// usual watchdog (normal step latency is about a millisecond).
-const c29Watch = 3 * watchdog
+// 10^4-element request can take tens of seconds, so it is two (quick) or three
+// (thorough) times the usual watchdog (normal step latency is about a millisecond).
+var c29Watch = func() time.Duration {
+	if evid.Thorough() {
+		return 3 * watchdog
+	}
+	return 2 * watchdog
+}()
 
 func c29RVID(n *ua.NodeID, a ua.AttributeID) *ua.ReadValueID {
 	return &ua.ReadValueID{NodeID: n, AttributeID: a, DataEncoding: &ua.QualifiedName{}}
